@@ -356,3 +356,147 @@ class C10Cancel(Monitor):
                             % (v, last.ctx[v], env.cancel_from, out, last.label(), bool(rec.get("term"))),
                             cancel_from=env.cancel_from, last_flagged_terminal=bool(rec.get("term")),
                         )
+
+
+class C18AppendOnly(Monitor):
+    """The persisted execution record only grows; started records keep what they saw;
+    decided records keep status and decisions."""
+
+    prop = "C18"
+
+    def on_start(self, env):
+        env.prev_state = None
+
+    def after_call(self, env, name):
+        if name in ("serialize", "deserialize"):
+            return
+        cur = json.loads(json.dumps(env.c.workflow_state.serialize()))
+        prev = env.prev_state
+        env.prev_state = cur
+        if prev is None:
+            return
+        count(env, "c18_compared")
+        if cur["contexts"][: len(prev["contexts"])] != prev["contexts"]:
+            self.fail(env, "contexts-rewritten", "C18 published context snapshots were rewritten or removed by %s" % name, call=name)
+        if cur["routes"][: len(prev["routes"])] != prev["routes"]:
+            self.fail(env, "routes-rewritten", "C18 routes were rewritten by %s" % name, call=name)
+        if len(cur["sequence"]) < len(prev["sequence"]):
+            self.fail(env, "sequence-shrank", "C18 task execution records were removed by %s" % name, call=name)
+        for i, old in enumerate(prev["sequence"]):
+            new = cur["sequence"][i]
+            if (new["id"], new["route"]) != (old["id"], old["route"]):
+                self.fail(env, "record-identity", "C18 record #%d changed identity %s -> %s" % (i, old["id"], new["id"]), call=name)
+            if new["ctxs"]["in"] != old["ctxs"]["in"] or new["prev"] != old["prev"]:
+                self.fail(
+                    env, "started-record-changed",
+                    "C18 record #%d (%s, %s) had input contexts %s / predecessors %s when it started, now %s / %s (after %s)"
+                    % (i, old["id"], old.get("status"), old["ctxs"]["in"], old["prev"], new["ctxs"]["in"], new["prev"], name),
+                    task=old["id"], call=name,
+                )
+            decided = old.get("status") in COMPLETED and (old["next"] or old.get("term"))
+            if decided:
+                count(env, "c18_decided")
+                if new.get("status") != old["status"] or new["next"] != old["next"]:
+                    self.fail(
+                        env, "decided-record-changed",
+                        "C18 record #%d (%s) was %s with decisions %s, now %s with %s (after %s)"
+                        % (i, old["id"], old["status"], old["next"], new.get("status"), new["next"], name),
+                        task=old["id"], call=name, items=env.wf.has_items(old["id"]) if old["id"] in env.wf.tasks else False,
+                    )
+
+
+class C19PureQuery(Monitor):
+    """Asking for the next tasks again, with no event in between, returns the same answer and
+    leaves the persisted state as the first call left it."""
+
+    prop = "C19"
+
+    def after_offers(self, env, tasks):
+        pass
+
+    def on_offer(self, env, tasks):
+        count(env, "c19_query_pairs")
+        s1 = env.snapshot()
+        again = env.c.get_next_tasks()
+        s2 = env.snapshot()
+        key = lambda ts: json.dumps([[t["id"], t["route"], t.get("actions"), t.get("delay"), t.get("ctx")] for t in ts], sort_keys=True, default=str)
+        if key(tasks) != key(again):
+            self.fail(env, "answer-differs", "C19 two consecutive get_next_tasks() calls answered %s then %s" % ([t["id"] for t in tasks], [t["id"] for t in again]))
+        if s1 != s2:
+            a, b = json.loads(s1), json.loads(s2)
+            self.fail(env, "second-call-changed-state", "C19 the second get_next_tasks() call changed the persisted %s" % [k for k in a if a[k] != b.get(k)])
+        ids = [(t["id"], t["route"]) for t in tasks]
+        if ids != sorted(ids):
+            self.fail(env, "unstable-order", "C19 offered tasks are not in a stable (id, route) order: %s" % ids)
+
+
+class C13Retry(Monitor):
+    """Bounded attempts per visit; re-offered only after an attempt whose retry condition held,
+    with the configured delay; a retried attempt decides no transition and publishes nothing."""
+
+    prop = "C13"
+
+    def on_start(self, env):
+        env.attempts = {}
+        env.last_attempt_status = {}
+
+    def policy(self, env, task, ctx):
+        wf = env.wf
+        r = wf.tasks[task].get("retry")
+        cmd = [c for c, _, do in wf.transitions(task) if "retry" in do]
+        if r:
+            n, d = r.get("count"), r.get("delay")
+            if isinstance(n, str):
+                n = (ctx or {}).get(n.split("ctx().")[1].split(" ")[0])
+            if isinstance(d, str):
+                d = (ctx or {}).get(d.split("ctx().")[1].split(" ")[0])
+            return n, d or 0, "fail"
+        if cmd:
+            return 3, 0, cmd[0]
+        return None
+
+    def on_offer(self, env, tasks):
+        for t in tasks:
+            if t["id"] not in env.wf.tasks:
+                continue
+            ctx = {k: v for k, v in (t.get("ctx") or {}).items() if not k.startswith("__")}
+            pol = self.policy(env, t["id"], ctx)
+            if pol is None:
+                continue
+            n, delay, cond = pol
+            key = (t["id"], t["route"])
+            rec = env.c.get_task_state_entry(t["id"], t["route"])
+            if "items_count" in t and rec is not None and rec.get("status") in (S.RUNNING, S.PAUSING, S.RESUMING):
+                continue  # further items of the same attempt
+            if rec is not None and rec.get("status") == S.RETRYING:
+                env.attempts[key] = env.attempts.get(key, 1) + 1
+                count(env, "c13_reoffers")
+                last = env.last_attempt_status.get(key)
+                if cond == "fail" and last not in ABENDED:
+                    self.fail(env, "retry-without-condition", "C13 %s re-offered although its latest execution ended %s" % (t["id"], last), task=t["id"])
+                if t.get("delay") != delay:
+                    self.fail(env, "retry-delay", "C13 %s re-offered with delay %r, the retry policy says %r" % (t["id"], t.get("delay"), delay), task=t["id"])
+                if env.attempts[key] > n + 1:
+                    self.fail(env, "too-many-attempts", "C13 %s offered for attempt %d of one visit with retry count %d" % (t["id"], env.attempts[key], n), task=t["id"], count=n)
+            else:
+                env.attempts[key] = 1
+
+    def on_report(self, env, act, status, result):
+        if act.task not in env.wf.tasks or self.policy(env, act.task, env.visible_ctx(act)) is None:
+            return
+        key = (act.task, act.route)
+        rec = env.c.get_task_state_entry(act.task, act.route) or {}
+        if rec.get("status") in COMPLETED or rec.get("status") == S.RETRYING:
+            env.last_attempt_status[key] = status if act.item is None else (S.FAILED if rec.get("status") == S.RETRYING or rec.get("status") in ABENDED else S.SUCCEEDED)
+        if rec.get("status") == S.RETRYING:
+            count(env, "c13_retried")
+            if rec.get("next"):
+                self.fail(env, "retried-attempt-decided", "C13 the retried attempt of %s decided transitions %s" % (act.task, rec["next"]), task=act.task)
+            if "out" in rec.get("ctxs", {}):
+                self.fail(env, "retried-attempt-published", "C13 the retried attempt of %s published a context" % act.task, task=act.task)
+            if env.status() == S.FAILED:
+                self.fail(env, "retried-attempt-failed-workflow", "C13 failure handling fired for the retried attempt of %s: workflow failed" % act.task, task=act.task)
+
+    def after_offers(self, env, tasks):
+        # a retried attempt must lead to a re-offer, never to a successor
+        pass
